@@ -21,6 +21,13 @@ EXTRA = {
         [[0, 0, 0], [1.25, 0, 0], list(0.98 * M._dir2(115.0)), [1.25 + 0.62, 0.93, 0.0], [1.25 + 0.60, -0.94, 0.0]],
         charge=1,
     ),
+    # first geometry of the repository's own force/excited-state tests (tests/data/methanal.1.xyz), as given there:
+    # its C=O bond makes an angle of 2e-4 rad with the x axis, i.e. it lies INSIDE the package's frozen-frame cone
+    # without being exactly on the axis
+    "H2CO_repo_test": M._mol(
+        [8, 6, 1, 1],
+        [[-0.00104, -0.00028, 0.0], [1.20966, -0.00003, 0.0], [1.63293, 0.95572, 0.0], [1.82758, -0.85100, 0.0]],
+    ),
     # formate, C2v
     "HCOO-": M._mol(
         [8, 8, 6, 1],
@@ -146,6 +153,55 @@ def fd_component_singles(mol, params, h, a, c, active_state=None):
         r = sp.single_point(dict(mol, coords=x), params, names=["Etot"], do_force=False, active_state=active_state)
         e.append(float(r["Etot"][0]))
     return -(e[0] - 8 * e[1] + 8 * e[2] - e[3]) / (12 * h)
+
+
+# ------------------------------------------------------------------ per-invocation iteration horizon for SP2
+
+
+class SP2Horizon:
+    """Deterministic horizon for the one loop of the single-point path that has no iteration cap: the
+    `while notconverged.any()` loop of SP2.  Unlike vp.budget.Horizon the count is PER INVOCATION of SP2 (a healthy
+    purification takes < 100 passes, but an SCF calls SP2 once per iteration, so a cumulative count would trip on
+    healthy slow SCF runs).  Raises vp.budget.IterationHorizon inside the spinning call."""
+
+    def __init__(self, limit=2000):
+        self.limit = limit
+        self.tripped = None
+
+    def _global(self, frame, event, arg):
+        from ..budget import IterationHorizon, _loop_headers
+
+        if event != "call":
+            return None
+        code = frame.f_code
+        if code.co_name != "SP2" or not code.co_filename.endswith("SP2.py"):
+            return None
+        heads = _loop_headers(code.co_filename)
+        counts = {}
+
+        def local(frame, event, arg):
+            if event == "line" and frame.f_lineno in heads:
+                n = counts.get(frame.f_lineno, 0) + 1
+                counts[frame.f_lineno] = n
+                if n > self.limit:
+                    self.tripped = ("SP2.py", "SP2", frame.f_lineno)
+                    raise IterationHorizon(f"loop header {self.tripped} executed {n} times in one call (horizon {self.limit})")
+            return local
+
+        return local
+
+    def __enter__(self):
+        import sys
+
+        self._old = sys.gettrace()
+        sys.settrace(self._global)
+        return self
+
+    def __exit__(self, *exc):
+        import sys
+
+        sys.settrace(self._old)
+        return False
 
 
 # ------------------------------------------------------------------ harness-side attribution probe
